@@ -34,6 +34,12 @@ FAMILIES = [
 ]
 
 
+def mixed_requires(case) -> bool:
+    req = case['cfg']['requires']
+    return all(isinstance(req[k], list) or req[k] == 'REMAINING' for k in ('sts', 'mts')) and \
+        any(isinstance(req[k], list) for k in ('sts', 'mts'))
+
+
 def rename_to_family(rng: random.Random, gen, ent, info, index: int = 0):
     """Rename the exposed ports of the encapsulee to near-duplicate names: orderings that rely
     on a non-injective key (case-folded, stripped, by length ...) then fall back to set order."""
@@ -77,25 +83,72 @@ def gen_cases(rng: random.Random, count: int):
                 enc['provides'] = {'sts': sorted(info['provides']), 'mts': 'NONE'}
             if explicit_sets(enc) < 2:
                 continue
+        if len(cases) % 4 == 1 and len(info['requires']) >= 2:
+            # both semantics in use on the requires side (every overview section is emitted)
+            names = sorted(info['requires'])
+            k = rng.randint(1, len(names) - 1)
+            enc['requires'] = rng.choice([{'sts': names[:k], 'mts': names[k:]},
+                                          {'sts': names[:k], 'mts': 'REMAINING'},
+                                          {'sts': 'REMAINING', 'mts': names[k:]}])
         if len(cases) % 3 == 0:
             enc['copyright'] = rng.choice(['© é ü 漢字', 'naïve\n\u2028sep', 'Ünïcødé ✓'])
         cases.append({'doc': M.to_json(gen.model), 'cfg': enc})
     return cases
 
 
-def run_child(path, hashseed, order_seed, passes=2):
+AMBIENTS = ['plain', 'model-file-present', 'model-file-is-symlink', 'other-user-and-time']
+
+
+def prepare_ambient(kind: str, cases, root: str):
+    """-> (cwd, env changes).  'The process it runs in' has a working directory, a file system
+    around it, environment variables and a clock; none of them is an input of a build."""
+    cwd = os.path.join(root, kind)
+    os.makedirs(cwd, exist_ok=True)
+    env = {}
+    if kind in ('model-file-present', 'model-file-is-symlink'):
+        os.makedirs(os.path.join(cwd, 'store'), exist_ok=True)
+        for idx, case in enumerate(cases):
+            name = case['cfg'].get('filename', '')
+            if not name or os.path.isabs(name) or name.endswith('/'):
+                continue
+            # create the directories the relative name walks through, '..' included
+            here = cwd
+            parts = name.split('/')
+            for part in parts[:-1]:
+                here = os.path.normpath(os.path.join(here, part))
+                os.makedirs(here, exist_ok=True)
+            target = os.path.join(here, parts[-1])
+            if os.path.lexists(target):
+                continue
+            if kind == 'model-file-present':
+                with open(target, 'w', encoding='utf-8') as fh:
+                    fh.write('// a Dezyne model\n')
+            else:
+                stored = os.path.join(cwd, 'store', f'{idx:04x}c0ffee-other_name_rev7.dzn')
+                with open(stored, 'w', encoding='utf-8') as fh:
+                    fh.write('// a Dezyne model\n')
+                os.symlink(stored, target)
+    if kind == 'other-user-and-time':
+        env = {'HOME': '/nonexistent/home', 'USER': 'someone-else', 'LOGNAME': 'someone-else',
+               'TZ': 'Pacific/Kiritimati', 'LANG': 'C', 'LC_ALL': 'C', 'COLUMNS': '40',
+               'VERIF_CLOCK_SHIFT': str(400 * 86400 + 7 * 3600 + 11 * 60)}
+    return cwd, env
+
+
+def run_child(path, hashseed, order_seed, passes=2, cwd=None, env_extra=None):
     env = dict(os.environ, PYTHONHASHSEED=str(hashseed), PYTHONDONTWRITEBYTECODE='1')
+    env.update(env_extra or {})
     proc = subprocess.run([sys.executable, CHILD, path, str(order_seed), str(passes)],
-                          env=env, capture_output=True, text=True, timeout=600)
+                          env=env, capture_output=True, text=True, timeout=600, cwd=cwd)
     if proc.returncode != 0:
         return {'error': proc.stderr[-800:]}
     return json.loads(proc.stdout)
 
 
 def _worker(arg):
-    path, hashseed, order_seed = arg
+    path, hashseed, order_seed, cwd, env_extra = arg
     try:
-        return run_child(path, hashseed, order_seed)
+        return run_child(path, hashseed, order_seed, cwd=cwd, env_extra=env_extra)
     except subprocess.TimeoutExpired:
         return {'error': 'timeout'}
 
@@ -108,17 +161,28 @@ def main(tier: str) -> int:
     path = os.path.join(run.scratch(), 'cases.json')
     with open(path, 'w', encoding='utf-8') as fh:
         json.dump(cases, fh)
-    jobs = [(path, hs, (hs * 7 + k) if k else 'none') for hs in seeds for k in range(2)]
+    ambients = {kind: prepare_ambient(kind, cases, os.path.join(run.scratch(), 'ambient'))
+                for kind in AMBIENTS}
+    jobs, kind_of = [], {}
+    for hs in seeds:
+        for k in range(2):
+            kind = AMBIENTS[len(jobs) % len(AMBIENTS)]
+            jobs.append((path, hs, (hs * 7 + k) if k else 'none') + ambients[kind])
+            kind_of[(hs, jobs[-1][2])] = kind
     reference = {}
-    run.require('executions_compared', 'md5_recomputed', 'cases_with_non_ascii_contents')
-    for (_p, hashseed, order_seed), res in run.pmap(_worker, jobs):
+    run.require('executions_compared', 'md5_recomputed', 'cases_with_non_ascii_contents',
+                'cases_with_relative_model_filename', 'cases_with_mixed_requires_semantics',
+                *[f'child_in_ambient_{kind}' for kind in AMBIENTS])
+    for (_p, hashseed, order_seed, _cwd, _env), res in run.pmap(_worker, jobs):
         if 'error' in res:
             run.mark_inconclusive(f'child interpreter failed: {res["error"][-300:]}')
             continue
         run.count('child_interpreters')
+        run.count(f'child_in_ambient_{kind_of[(hashseed, order_seed)]}')
         for pas, idx, out in res['results']:
             case = cases[idx]
-            ident = {'hashseed': hashseed, 'order_seed': order_seed, 'pass': pas}
+            ident = {'hashseed': hashseed, 'order_seed': order_seed, 'pass': pas,
+                     'ambient': kind_of[(hashseed, order_seed)]}
             if 'exc' in out:
                 run.violation(f'valid-build-failed:{out["exc"]["type"]}', dict(out['exc'], **ident),
                               case)
@@ -148,12 +212,18 @@ def main(tier: str) -> int:
         run.case(common.digest(case), explicit_sets(case['cfg']) >= 2,
                  {'cfg': case['cfg']} if idx < 3 else None)
     run.extra['executions_per_case'] = len(jobs) * 2
+    run.count('cases_with_mixed_requires_semantics', sum(1 for c in cases if mixed_requires(c)))
+    run.count('cases_with_relative_model_filename',
+              sum(1 for c in cases if c['cfg'].get('filename') and not os.path.isabs(c['cfg']['filename'])))
     run.count('cases_with_non_ascii_contents', sum(1 for c in cases if not c['cfg']['copyright'].isascii()))
     run.extra['hashseeds'] = seeds
     return run.finish(
         rule='valid (model, configuration) cases built in child interpreters: PYTHONHASHSEED '
              'values x {sets built in written order, sets built in a permuted order} x 2 passes '
-             'per process; all executions of a case must agree on file names, sha256(contents) '
+             'per process, the processes cycling through four surroundings (plain; working '
+             'directory in which the configured model file name exists as a regular file; as a '
+             'symbolic link to a differently named file; other HOME/USER/TZ/locale and a clock '
+             '400 days ahead); all executions of a case must agree on file names, sha256(contents) '
              'and hash; evaluations = cases; non-trivial = a selection naming >=2 ports',
         assumptions=['equal inputs = same JSON document and same configuration encoding'])
 
